@@ -1465,6 +1465,10 @@ impl Uiua {
             if _pool {
                 use std::sync::LazyLock;
                 static MAX_THREADS: LazyLock<usize> = LazyLock::new(|| {
+                    #[cfg(feature = "verif_hooks")]
+                    if let Some(n) = crate::verif::pool_max_threads() {
+                        return n;
+                    }
                     std::thread::available_parallelism()
                         .map(|p| p.get())
                         .unwrap_or(1)
